@@ -61,7 +61,10 @@ let judge op args got =
   match op with
   | "is_simpler" ->
       let x = fr (a 0) (a 1) and y = fr (a 2) (a 3) in
-      verdict ~want:("ok " ^ b2s (simpler x y)) ~asis:("ok " ^ b2s (is_simpler_than_asis x y)) ~known_tag:None got
+      (* model fidelity: the hand-written model AND the body regenerated from rational/src/simplify.rs *)
+      let a1 = is_simpler_than_asis x y and a2 = is_simpler_than_gen x y in
+      let asis = if a1 = a2 then "ok " ^ b2s a1 else "model-and-regenerated-body-differ" in
+      verdict ~want:("ok " ^ b2s (simpler x y)) ~asis ~known_tag:None got
   | "simplest_in" ->
       let l = fr (a 0) (a 1) and u = fr (a 2) (a 3) in
       let cls = if feq l u then "equal" else if Zar.sign (fst l) * Zar.sign (fst u) < 0 then "straddle"
@@ -138,9 +141,9 @@ let judge op args got =
           let known_tag =
             if Zar.sign sg = 0 then None
             else if known_oddbase b md p then Some "float_odd_base_half_ulp"
-            else if known_powbase p sg then Some "float_pow_base_lower_ulp"
-            else None in
-          let cls = a 1 ^ (if Zar.sign p = 0 then "-p0" else if Zar.equal (Zar.abs sg) Zar.one then "-pow" else "") in
+            else None in   (* F07 (known_powbase) is repaired: histogram class only *)
+          let pow_changed = Zar.sign sg <> 0 && known_powbase p sg && simplest_from_float_r2 b md p sg ex <> asis in
+          let cls = a 1 ^ (if Zar.sign p = 0 then "-p0" else if pow_changed then "-pow-F07" else if Zar.equal (Zar.abs sg) Zar.one then "-pow" else "") in
           verdict ~cls ~want:(res_str optq spec) ~asis:(res_str optq asis) ~known_tag got
         end
       end
